@@ -4,6 +4,7 @@ C19 — Sheet and table collections: unique names, consistent lookup, stable ord
 every such function (it is data carried by the items).
 -/
 import NumbersModel.Lemmas.Items
+import NumbersModel.Lemmas.TrItems
 namespace NumbersModel.Props.C19
 open NumbersModel NumbersModel.Items
 
@@ -91,3 +92,51 @@ example : NoCIDup [⟨0, "Sheet 1".toList, "sheet 1".toList⟩, ⟨1, "SHEET 2".
   unfold NoCIDup; decide
 
 end NumbersModel.Props.C19
+
+/-! ## The lookup statements over `ItemsList.__getitem__` as regenerated from the Python source
+
+`Gen/TrItems.lean` is produced by `harness/py2lean.py` from `containers.py` in the working tree on every check
+run (the `isinstance` dispatch becomes a match on `PyT.Key`, an item is its (identity, name) pair);
+`Lemmas/TrItems.lean` proves it equal to `getByIndex` / `getByName`. -/
+namespace NumbersModel.Props.C19.Src
+open NumbersModel NumbersModel.Items NumbersModel.Gen.T NumbersModel.Translated
+
+/-- lookup by index agrees with iteration order for every index in [-n, n) … -/
+theorem src_index_agrees_with_iteration (items : Coll) (i : Int)
+    (h1 : -(items.length : Int) ≤ i) (h2 : i < items.length) :
+    ∃ it, items[(i % (items.length : Int)).toNat]? = some it ∧
+      ItemsList.getitem (items.map toT) (.int i) = .ok (toT it) := by
+  obtain ⟨it, hi, hg⟩ := C19.index_agrees_with_iteration items i h1 h2
+  exact ⟨it, hi, by rw [getitem_int_eq_model, hg]; rfl⟩
+
+/-- … and raises IndexError outside it (both sides). -/
+theorem src_index_outside_raises (items : Coll) (i : Int)
+    (h : i < -(items.length : Int) ∨ (items.length : Int) ≤ i) :
+    ItemsList.getitem (items.map toT) (.int i) = .error .IndexError := by
+  rw [getitem_int_eq_model, C19.index_outside_raises items i h]; rfl
+
+/-- lookup by name returns the first item with exactly that name, KeyError exactly when there is none. -/
+theorem src_lookup_by_name_exact (items : Coll) (k : Text) :
+    (∀ r, ItemsList.getitem (items.map toT) (.str k) = .ok r → ∃ it ∈ items, r = toT it ∧ it.name = k) ∧
+    ((∀ it ∈ items, it.name ≠ k) → ItemsList.getitem (items.map toT) (.str k) = .error .KeyError) := by
+  obtain ⟨h1, _, h3⟩ := C19.lookup_by_name_exact items k
+  rw [getitem_str_eq_model]
+  refine ⟨?_, ?_⟩
+  · intro r hr
+    cases hg : getByName items k with
+    | error e => rw [hg] at hr; cases hr
+    | ok it =>
+      rw [hg] at hr
+      have : r = toT it := by injection hr with h; exact h.symm
+      exact ⟨it, (h1 it hg).1, this, (h1 it hg).2⟩
+  · intro h; rw [h3 h]; rfl
+
+/-- any other key type is a LookupError, never an item. -/
+theorem src_other_key_raises (items : List PyT.Item) :
+    ItemsList.getitem items .other = .error (.Other "LookupError") := getitem_other items
+
+example : ItemsList.getitem [⟨0, "a".toList⟩, ⟨1, "b".toList⟩] (.int (-3)) = .error .IndexError := by decide
+example : ItemsList.getitem [⟨0, "a".toList⟩, ⟨1, "b".toList⟩] (.int (-1)) = .ok ⟨1, "b".toList⟩ := by decide
+example : ItemsList.getitem [⟨0, "a".toList⟩, ⟨1, "b".toList⟩] (.str "b".toList) = .ok ⟨1, "b".toList⟩ := by decide
+
+end NumbersModel.Props.C19.Src
